@@ -1,6 +1,7 @@
 #!/bin/bash
 tier=$1; shift
 export VERIF_ARGS="$*"
+export VERIF_RACE_RUNS=30
 exec /verif/tools/instr_check.sh c12 "$tier" \
   github.com/99designs/gqlgen/graphql github.com/99designs/gqlgen/graphql/executor \
   github.com/99designs/gqlgen/graphql/handler github.com/99designs/gqlgen/graphql/handler/transport \
